@@ -157,12 +157,22 @@ Definition eval_map (st : gmap) := eval_map_with (fun k => assoc k st).
 (* ---------- loading a role tree (ProcessTemplates) ---------- *)
 (* a role as written in the workflow; [name] = None: literal name "r"; Some k: "n{{ k }}".
    A role with children is an aggregator, a childless one a task or call role (the three
-   treat their variables identically).  RIter: iterator role over a template role. *)
+   treat their variables identically).  RIter: iterator role over a template role.
+   RIncl: include role (include: <workflow>) with its own name / defaults / vars, and the
+   defaults, vars and children of the root of the sub-workflow it names (includerole.go).
+   After loading, the include role shows the sub-workflow root's maps as its own
+   (r.aggregatorRole = *subWfRoot) and keeps its name and parent; its own, already resolved maps
+   stay in the hierarchies between the sub-workflow root's and the parent's (the root was
+   parented to the include role by loadSubworkflow, and the parent is restored by plain
+   assignment, not by setParent).  An ltree node therefore carries the levels hidden between
+   its visible level and its parent: [hid] is [] for every role but a loaded include role. *)
 Inductive rtree :=
 | RRole (name : option str) (defaults vars : rmap) (children : list rtree)
-| RIter (var : str) (vals : list str) (tpl : rtree).
+| RIter (var : str) (vals : list str) (tpl : rtree)
+| RIncl (name : option str) (defaults vars : rmap) (sdefaults svars : rmap)
+        (children : list rtree).
 
-Inductive ltree := LNode (name : str) (lv : level) (children : list ltree).
+Inductive ltree := LNode (name : str) (lv : level) (hid : list level) (children : list ltree).
 
 Definition lit_name : str := [114].     (* r *)
 Definition name_prefix : N := 110.      (* n *)
@@ -224,7 +234,23 @@ Fixpoint load (anc : path) (locals : gmap) (t : rtree) : option (list ltree) :=
       (* setParent + ProcessTemplates of every child, in order; the first error aborts *)
       match opt_concat_map (load (lv :: anc) []) ch with
       | None => None
-      | Some kids => Some [LNode n lv kids]
+      | Some kids => Some [LNode n lv [] kids]
+      end
+    end
+  | RIncl nm d v sd sv ch =>
+    (* the include role's own templates first, like any role (iterator locals -> its vars) *)
+    match resolve_level anc locals nm d v with
+    | None => None
+    | Some (n, lvi) =>
+      (* the sub-workflow root, parented to the include role, takes the include role's place
+         (fresh Locals, the include role's name) and processes its templates as an aggregator *)
+      match resolve_level (lvi :: anc) [] None sd sv with
+      | None => None
+      | Some (_, lvs) =>
+        match opt_concat_map (load (lvs :: lvi :: anc) []) ch with
+        | None => None
+        | Some kids => Some [LNode n lvs [lvi] kids]
+        end
       end
     end
   | RIter var vals tpl =>
@@ -243,10 +269,10 @@ Fixpoint upd_at (o : mop) (addr : list N) (ts : list ltree) : list ltree :=
   | i :: rest =>
     upd_nth (N.to_nat i)
             (fun t => match t with
-                      | LNode n lv ch =>
+                      | LNode n lv hid ch =>
                         match rest with
-                        | [] => LNode n (upd_user o lv) ch
-                        | _ => LNode n lv (upd_at o rest ch)
+                        | [] => LNode n (upd_user o lv) hid ch
+                        | _ => LNode n lv hid (upd_at o rest ch)
                         end
                       end) ts
   end.
@@ -254,26 +280,29 @@ Fixpoint upd_at (o : mop) (addr : list N) (ts : list ltree) : list ltree :=
 Definition apply_uops (ops : list (list N * mop)) (ts : list ltree) : list ltree :=
   fold_left (fun ts' o => upd_at (snd o) (fst o) ts') ops ts.
 
-(* every role of a forest with its address (reversed: innermost index first), name and path *)
-Fixpoint nodes (anc : path) (raddr : list N) (t : ltree) : list (list N * str * path) :=
+(* every role of a forest with its address (reversed: innermost index first), name, hidden
+   levels and path (visible level :: hidden levels ++ ancestors) *)
+Definition node := (list N * str * list level * path)%type.
+Fixpoint nodes (anc : path) (raddr : list N) (t : ltree) : list node :=
   match t with
-  | LNode n lv ch =>
-    (rev raddr, n, lv :: anc)
-    :: flat_mapi (fun i c => nodes (lv :: anc) (i :: raddr) c) 0 ch
+  | LNode n lv hid ch =>
+    (rev raddr, n, hid, lv :: hid ++ anc)
+    :: flat_mapi (fun i c => nodes (lv :: hid ++ anc) (i :: raddr) c) 0 ch
   end.
-Definition forest_nodes (anc : path) (ts : list ltree) : list (list N * str * path) :=
+Definition forest_nodes (anc : path) (ts : list ltree) : list node :=
   flat_mapi (fun i t => nodes anc [i] t) 0 ts.
 
 (* what the harness reads at one role *)
 Record view := mkView {
   w_addr : list N; w_name : str;
   w_own : level;                    (* GetDefaults/GetVars/GetUserVars .Raw() *)
+  w_hid : list level;               (* include role: its own maps when the sub-workflow was loaded *)
   w_stack : gmap;                   (* ConsolidatedVarStack() *)
   w_maps : level                    (* ConsolidatedVarMaps() *)
 }.
-Definition view_of (x : list N * str * path) : view :=
-  let '(a, n, p) := x in
-  mkView a n (hd (mkLevel [] [] []) p) (consolidated p)
+Definition view_of (x : node) : view :=
+  let '(a, n, hid, p) := x in
+  mkView a n (hd (mkLevel [] [] []) p) hid (consolidated p)
          (mkLevel (flattened (chain l_defaults p)) (flattened (chain l_vars p))
                   (flattened (chain l_user p))).
 
@@ -345,7 +374,8 @@ Definition level_eqb (a b : level) : bool :=
 
 Definition view_eqb (a b : view) : bool :=
   list_eqb N.eqb (w_addr a) (w_addr b) && str_eqb (w_name a) (w_name b) &&
-  level_eqb (w_own a) (w_own b) && gmap_eqb (w_stack a) (w_stack b) &&
+  level_eqb (w_own a) (w_own b) && list_eqb level_eqb (w_hid a) (w_hid b) &&
+  gmap_eqb (w_stack a) (w_stack b) &&
   level_eqb (w_maps a) (w_maps b).
 
 Definition stage_list : list N := [0; 1; 2; 3; 4; 5].
@@ -387,7 +417,11 @@ Definition corr14 (c : c14_case) : bool :=
      7  task command line: any other deviation from special > workflow > class vars > class defaults
      8  task property map: deviation from special > workflow > class vars > class defaults
      9  the variable of an iterator is not a var of the role generated for one of its values
-    10  a call does not see special > the consolidated stack of its role *)
+        (for a generated include role: of its own maps, below the sub-workflow root's)
+    10  a call does not see special > the consolidated stack of its role
+    11  a role in the subtree of an include role (the include role itself included) does not see
+        the include role's own defaults / vars as the nearest ancestor's above the sub-workflow
+        root: what it sees is exactly the ranking WITHOUT those maps *)
 
 Definition all_keys (ms : list gmap) : list str := map fst (concat ms).
 
@@ -417,20 +451,30 @@ Fixpoint prefixes {A} (l : list A) : list (list A) :=
   end.
 Definition find_view (vs : list view) (a : list N) : option view :=
   find (fun w => list_eqb N.eqb (w_addr w) a) vs.
-Definition observed_path (env : level) (vs : list view) (a : list N) : path :=
+(* [with_hid]: the own maps an include role had when its sub-workflow was loaded sit between
+   the maps it shows afterwards and its parent's *)
+Definition observed_path_gen (with_hid : bool) (env : level) (vs : list view) (a : list N) : path :=
   fold_left (fun acc pa => match find_view vs pa with
-                           | Some w => w_own w :: acc
+                           | Some w => w_own w :: (if with_hid then w_hid w else []) ++ acc
                            | None => acc end) (prefixes a) [env].
+Definition observed_path := observed_path_gen true.
+
+Definition view_code (keys : list str) (p : path) (w : view) : N :=
+  first_code [ check_map 1 keys (sources p) (w_stack w);
+               check_map 2 keys (chain l_defaults p) (l_defaults (w_maps w));
+               check_map 2 keys (chain l_vars p) (l_vars (w_maps w));
+               check_map 2 keys (chain l_user p) (l_user (w_maps w)) ].
 
 Definition mon_view (env : level) (vs : list view) (w : view) : N :=
   let p := observed_path env vs (w_addr w) in
   let keys := all_keys (sources p) ++ map fst (w_stack w) ++
               map fst (l_defaults (w_maps w)) ++ map fst (l_vars (w_maps w)) ++
               map fst (l_user (w_maps w)) in
-  first_code [ check_map 1 keys (sources p) (w_stack w);
-               check_map 2 keys (chain l_defaults p) (l_defaults (w_maps w));
-               check_map 2 keys (chain l_vars p) (l_vars (w_maps w));
-               check_map 2 keys (chain l_user p) (l_user (w_maps w)) ].
+  let c := view_code keys p w in
+  if c =? 0 then 0
+  else
+    let p0 := observed_path_gen false env vs (w_addr w) in
+    if negb (Nat.eqb (length p) (length p0)) && (view_code keys p0 w =? 0) then 11 else c.
 
 Definition nth_row (o : list (list (option str))) (s : N) : list (option str) :=
   nth (N.to_nat s) o [].
@@ -458,7 +502,8 @@ Definition mon14 (c : c14_case) : N :=
   | CTree env t ops locs (Some vs) =>
     first_code (map (mon_view env vs) vs ++
                 map (fun l => match find_view vs (fst l) with
-                              | Some w => if ostr_eqb (assoc (fst (snd l)) (l_vars (w_own w)))
+                              | Some w => if ostr_eqb (assoc (fst (snd l))
+                                                             (l_vars (hd (w_own w) (w_hid w))))
                                                       (Some (snd (snd l))) then 0 else 9
                               | None => 9
                               end) locs)
@@ -494,7 +539,9 @@ Definition mon14 (c : c14_case) : N :=
    kind * 100 + 1 (some key is defined by two or more ranked sources)
               + 2 (some key's winning value is empty while a lower-ranking source is non-empty)
               + 4 (some queried key is defined nowhere)
-              + 8 (CTree/CTask: depth >= 3; CTree: load failed = 16) *)
+              + 8 (CTree/CTask: depth >= 3; CTree: load failed = 16)
+              + 32 (CTree: an include role whose own maps define some key)
+              + 48 instead (CTree: an include role generated by an iterator) *)
 Definition defining (k : str) (srcs : list gmap) : nat := length (filter (has k) srcs).
 Definition nonempty_below (k : str) (srcs : list gmap) : bool :=
   match first_hit k srcs with
@@ -512,8 +559,13 @@ Definition tag14 (c : c14_case) : N :=
     100 + tag_bits keys (apply_hops ops h0)
   | CFlatStack hs _ => 200 + tag_bits (all_keys (concat hs)) (concat (rev hs))
   | CStage locals d v u keys _ => 300 + tag_bits keys ([locals] ++ u ++ v ++ d)
-  | CTree env t ops _ (Some vs) =>
+  | CTree env t ops locs (Some vs) =>
     400 + (if existsb (fun w => Nat.leb 3 (length (w_addr w))) vs then 8 else 0)
+        + (if existsb (fun l => match find_view vs (fst l) with
+                                | Some w => negb (Nat.eqb (length (w_hid w)) 0)
+                                | None => false end) locs then 48
+           else if existsb (fun w => negb (Nat.eqb (length (all_keys (sources (w_hid w)))) 0)) vs
+                then 32 else 0)
         + fold_right N.lor 0
             (map (fun w => let p := observed_path env vs (w_addr w) in
                            tag_bits (all_keys (sources p)) (sources p)) vs)
